@@ -30,10 +30,18 @@ inductive Outcome (α : Type) where
   | panic (site : String)
   deriving Repr
 
+/-- Class of a non-ASCII Unicode scalar under Rust's `char::is_alphanumeric` / `char::is_whitespace`. -/
+inductive UCls where
+  | alnum | white | other
+  deriving Repr, DecidableEq
+
 structure St where
   buf : Bytes
   alloc : Nat := 0
   depth : Nat := 0
+  /-- Parameter of the model (not touched by any reader): the class of the non-ASCII scalars, keyed by their UTF-8
+  bytes; consulted only by the custom type string parser. -/
+  uni : List (Bytes × UCls) := []
   deriving Repr
 
 def M (α : Type) := St → Outcome α × St
@@ -67,6 +75,9 @@ def allocReq (n : Nat) : M Unit := fun s => (.ok (), { s with alloc := s.alloc +
 
 /-- Ghost: the recursion reached level `d`. -/
 def noteDepth (d : Nat) : M Unit := fun s => (.ok (), { s with depth := max s.depth d })
+
+/-- The class table (parameter). -/
+def getUni : M (List (Bytes × UCls)) := fun s => (.ok s.uni, s)
 
 /-- `buf.len()`. -/
 def remaining : M Nat := fun s => (.ok s.buf.length, s)
